@@ -1016,6 +1016,9 @@ func genEvents(sc *Scenario, r *Rng, p Profile) {
 	for i := 0; i < nf; i++ {
 		fz = append(fz, r.Range(s0+1, e0+30))
 	}
+	if sc.Prop == "C10" && nf > 0 && r.Bool(0.15) {
+		fz = append(fz, s0) // a fertilisation on the start day (it shares that day with the incorporation of the initial crop's residues)
+	}
 	if r.Bool(p.SameDayEv) && len(fz) > 0 {
 		fz = append(fz, fz[r.Intn(len(fz))]) // one same-day pair
 	}
@@ -1023,7 +1026,7 @@ func genEvents(sc *Scenario, r *Rng, p Profile) {
 		fz = append(fz, fz[r.Intn(len(fz))]+1) // consecutive days
 	}
 	if r.Bool(p.PreStartEv) {
-		fz = append(fz, s0-r.Range(1, 300))
+		fz = append(fz, s0-preStartOffset(r))
 	}
 	fz = sortDedup(fz, 2) // a same-day pair may be followed by an event on the next day (the shift then cascades)
 	for _, z := range fz {
@@ -1042,7 +1045,7 @@ func genEvents(sc *Scenario, r *Rng, p Profile) {
 		tz = append(tz, tz[r.Intn(len(tz))])
 	}
 	if r.Bool(p.PreStartEv) {
-		tz = append(tz, s0-r.Range(1, 300))
+		tz = append(tz, s0-preStartOffset(r))
 	}
 	tz = sortDedup(tz, 2)
 	// a same-day pair is shifted by one day: keep the shifted day inside the fallow window (windows have margin 2)
@@ -1068,7 +1071,7 @@ func genEvents(sc *Scenario, r *Rng, p Profile) {
 			iz = append(iz, r.Range(s0, e0+10))
 		}
 		if r.Bool(p.PreStartEv) {
-			iz = append(iz, s0-r.Range(1, 300))
+			iz = append(iz, s0-preStartOffset(r))
 		}
 		iz = sortDedup(iz, 1)
 		for _, z := range iz {
@@ -1089,6 +1092,14 @@ func dropAfterPair(xs []int) []int {
 		out = append(out, x)
 	}
 	return out
+}
+
+// preStartOffset: how many days before the start a pre-start event is dated (the day just before the start is the edge)
+func preStartOffset(r *Rng) int {
+	if r.Bool(0.3) {
+		return 1
+	}
+	return r.Range(1, 300)
 }
 
 // sortDedup sorts ascending and keeps at most maxSame equal values
